@@ -3,7 +3,7 @@
 From Coq Require Import ZArith QArith List Bool.
 From Coq Require Import Floats.PrimFloat.
 From PAFCommon Require Import PyFloat PyNum Lists.
-From PAFC16 Require Import Gen.
+From PAFC16 Require Import Gen Lib.
 Import ListNotations.
 
 (* make_lists(len steps, tuple steps, centre_steps) *)
@@ -34,13 +34,6 @@ Definition sens_cell_units_Q (ls : Q) (ns : list Z) : list (list (Q * Q)) :=
 Definition sens_cell1_Q (ls : Q) (n k : Z) : Q * Q :=
   let s := sens_step_size_Q n in
   (sens_unit_lower_Q (ml_value_Q s k true) (sens_half_step_Q ls s), sens_unit_upper_Q (ml_value_Q s k true) (sens_half_step_Q ls s)).
-
-(* big-endian base-n digits of a job number: the multi-index of the job in row-major order *)
-Fixpoint digits (n d k : nat) : list nat :=
-  match d with
-  | O => []
-  | S d' => (k / n ^ d')%nat :: digits n d' (k mod n ^ d')%nat
-  end.
 
 (* GridSearch.make_arguments for one grid prior (lo, hi) and one lattice value *)
 Definition cell_F (n : Z) (lohi : float * float) (value : float) : float * float :=
